@@ -418,3 +418,23 @@ def run(chk):
     d5_ensure_path(chk, prog)
     chk.sample(dict(effects_rounds=eff.rounds, functions=len(eff.sum),
                     functions_with_mutation_summary=sum(1 for s in eff.sum.values() if s.mut)))
+
+
+MUTANTS = [
+    dict(name="do_call works on the input (no copy)", file="cnvlib/call.py", old="    outarr = cnarr.copy()\n", new="    outarr = cnarr\n", mention="do_call"),
+    dict(name="re-introduce filters.remove on caller's list", file="cnvlib/call.py", old="        filters = list(filters)\n", new="", mention="filters.remove"),
+    dict(name="delete seed in center_by_window", file="cnvlib/fix.py", old="    np.random.seed(0xA5EED)\n", new="", mention="center_by_window"),
+    dict(name="delete seed in bootstrap", file="cnvlib/segmetrics.py", old="    np.random.seed(0xA5EED)\n", new="", mention="confidence_interval_bootstrap"),
+    dict(name="seed only on one branch", file="cnvlib/segmetrics.py", old="    np.random.seed(0xA5EED)\n    rand_indices", new="    if smoothed:\n        np.random.seed(0xA5EED)\n    rand_indices", mention="confidence_interval_bootstrap"),
+    dict(name="sample without random_state", file="cnvlib/autobin.py", old="midsize_regions.sample(max_num, random_state=0xA5EED)", new="midsize_regions.sample(max_num)", mention="sample"),
+    dict(name="as_completed in segmentation", file="cnvlib/segmentation/__init__.py", old="            rets = list(\n                pool.map(", new="            from concurrent import futures as _f\n            _f.as_completed([])\n            rets = list(\n                pool.map(", mention="as_completed"),
+    dict(name="shift_xx mutates self", file="cnvlib/cnary.py", old="        outprobes = self.copy()\n", new="        outprobes = self\n", mention="shift_xx"),
+    dict(name="segmetrics on input", file="cnvlib/segmetrics.py", old="    segarr = segarr.copy()\n", new="", mention="do_segmetrics"),
+    dict(name="module cache in do_target", file="cnvlib/target.py", old="def do_target(", new="_CACHE = {}\n\n\ndef _remember(k):\n    _CACHE[k] = 1\n\n\ndef do_target(", mention="_CACHE"),
+    dict(name="ensure_path renames onto fixed suffix", file="cnvlib/core.py", old="        os.rename(fname, bak_fname)", new="        os.rename(fname, fname + '.1')", mention="ensure_path"),
+    dict(name="ensure_path call deleted in _cmd_reference", file="cnvlib/commands.py", old="    core.ensure_path(ref_fname)\n", new="", mention="_cmd_reference"),
+    dict(name="tabio.read writes caller meta", file="skgenome/tabio/__init__.py", old="    meta = dict(meta) if meta is not None else {}\n", new="    if meta is None:\n        meta = {}\n", mention="tabio.read"),
+    dict(name="SerialPool.map reversed", file="cnvlib/parallel.py", old="        return map(func, iterable)", new="        return map(func, reversed(list(iterable)))", mention="SerialPool"),
+    dict(name="twin: copy via as_dataframe", file="cnvlib/call.py", old="    outarr = cnarr.copy()\n", new="    outarr = cnarr.as_dataframe(cnarr.data.copy())\n", expect="silent"),
+    dict(name="twin: seed constant changed", file="cnvlib/fix.py", old="    np.random.seed(0xA5EED)\n", new="    np.random.seed(12345)\n", expect="silent"),
+]
